@@ -333,7 +333,59 @@ def aggregate(ctx):
                           'mass_static argument is %s' % s_[:300], ctx.where(b, c.span))
 
 
+def index_seeds(ctx):
+    """the cached indices are created by `Strap::new` / `Point::new`.  The forward search only ever moves an index up, so an index
+    that starts beyond its position stays wrong until the train has moved past it.  Decided: on a populated profile the rear
+    index is searched for offset - length from the start of the profile (hint 0), forward; the front index for offset, forward,
+    from the rear index (which cannot lie beyond it); the point index for the middle of the train from the start; on an empty
+    profile all indices are 0."""
+    R = 'C07-8.index'
+    prog = ctx.prog
+    eng = engine(ctx)
+    FW = 'Dir::Fwd'
+    def calls_of(an):
+        out = []
+        for c in an.calls:
+            if 'calc_idx' in c.callee and len(c.argvals) >= 4:
+                d = c.pointees[3] if c.pointees and len(c.pointees) > 3 else None
+                out.append((c, c.argvals[1], c.argvals[2], show(d, an.names) if d is not None else ''))
+        return out
+    b = prog.by_id.get('path_res::Strap::new')
+    if b is None:
+        ctx.unproved(R, 'path_res::Strap::new', 'anchor not found')
+    else:
+        an = analysis_or_fail(ctx, R, b)
+        if an is not None:
+            off = ('pre', (('obj', 2), ('f', 'offset'))); ln = ('pre', (('obj', 2), ('f', 'length')))
+            cs = calls_of(an)
+            r = an.ret()
+            back = [x for x in cs if x[1] == mk('sub', off, ln)]
+            front = [x for x in cs if x[1] == off]
+            okb = len(cs) == 2 and len(back) == 1 and back[0][2] == ZERO and back[0][3].startswith(FW)
+            ctx.check(okb, R, 'path_res::Strap::new|rear index', 'the rear index is searched for offset - length, forward, from the start of the profile',
+                      'calc_idx calls: %s' % [(show(x[1], an.names)[:40], show(x[2], an.names)[:40], x[3][:12]) for x in cs], ctx.where(b))
+            fields_ = None
+            if r[0] == 'gamma' and r[3][0] == 'ok' and r[3][1][0] == 'agg':
+                fields_ = dict(r[3][1][2])
+            okf = okb and len(front) == 1 and front[0][3].startswith(FW) and fields_ is not None and front[0][2] == fields_.get('idx_back') and fields_.get('idx_back') != fields_.get('idx_front')
+            ctx.check(okf, R, 'path_res::Strap::new|front index', 'the front index is searched for offset, forward, starting from the rear index that is stored',
+                      'front search starts from %s; stored: %s' % (show(front[0][2], an.names)[:60] if front else None, {k: show(v, an.names)[:40] for k, v in (fields_ or {}).items()}), ctx.where(b))
+            oke = r[0] == 'gamma' and r[2][0] == 'ok' and r[2][1][0] == 'agg' and all(v == ZERO for k, v in r[2][1][2])
+            ctx.check(oke, R, 'path_res::Strap::new|empty profile', 'on a profile without segments both indices are 0', 'returns %s' % show(r, an.names)[:160], ctx.where(b))
+    b = prog.by_id.get('path_res::Point::new')
+    if b is None:
+        ctx.unproved(R, 'path_res::Point::new', 'anchor not found')
+    else:
+        an = analysis_or_fail(ctx, R, b)
+        if an is not None:
+            cs = calls_of(an)
+            okp = len(cs) == 1 and cs[0][2] == ZERO and cs[0][3].startswith(FW) and not cs[0][0].pc
+            ctx.check(okp, R, 'path_res::Point::new|index', 'the point index is searched forward from the start of the profile',
+                      'calc_idx calls: %s' % [(show(x[1], an.names)[:50], show(x[2], an.names)[:30], x[3][:12]) for x in cs], ctx.where(b))
+
+
 def index_search(ctx):
+    index_seeds(ctx)
     """LinSearchHint::calc_idx (the cached position index every strap resistance reads through): on every accepted exit of
     the forward search the element after the returned index is not below the offset, on every accepted exit of the backward
     search the returned element is not above it; the searches move the hint by exactly one per iteration and start from it.
